@@ -145,6 +145,25 @@ def _real_slope_nd(db, u):
     return float(r[0]) - float(r[1])
 
 
+def _real_slope_nd_int(db, u):
+    """the same factor through the ndarray branch with integer dtypes (int64, int32): the conversion formulas must
+    not be evaluated in the array's integer arithmetic.  Returns the factor that differs most from the float one."""
+    import numpy
+
+    info = db.unit_to_unit_info[u]
+    qt = info.quantity_type
+    base = db.quantity_types[qt][0].unit
+    ref = _real_slope(db, u)
+    worst = ref
+    for dt in (numpy.int64, numpy.int32):
+        for k in (1, 3000):
+            r = db.Convert(qt, u, base, numpy.array([k, 0], dtype=dt))
+            f = (float(r[0]) - float(r[1])) / k
+            if abs(f - ref) > abs(worst - ref):
+                worst = f
+    return worst
+
+
 def _real_slope_cat(db, u):
     """the same factor asked through every category of the unit's quantity type (a category name is accepted
     wherever a quantity type is) and through the list branch of the conversion; returns the factor that differs
@@ -182,9 +201,10 @@ def _scalar_in_base(db, u, amount):
     return Scalar(s.GetValue(base) - z.GetValue(base), base, cat)
 
 
-def _real_composed(db, kind, parts):
+def _real_composed(db, kind, parts, use_pow=False):
     """the amount `1 named unit` obtained by multiplying/dividing real Scalars in the component units,
-    as a number of coherent base units"""
+    as a number of coherent base units; powers of a component as n-fold products or, with use_pow, by the
+    library's own `Scalar ** n`"""
     if kind == "si":
         base, ex = parts[0]
         return _scalar_in_base(db, base, 1.0).GetValue() * (10.0 ** ex)
@@ -192,11 +212,13 @@ def _real_composed(db, kind, parts):
     for u, e, p in parts:
         f = _scalar_in_base(db, u, float(p))
         if abs(e) != 1:
-            # n-fold product (Scalar ** n exists only for simple powers; use repeated multiplication)
-            g = f
-            for _ in range(abs(e) - 1):
-                g = g * f
-            f = g
+            if use_pow:
+                f = f ** abs(e)
+            else:
+                g = f
+                for _ in range(abs(e) - 1):
+                    g = g * f
+                f = g
         if acc is None:
             acc = f if e > 0 else (1.0 / f)
         else:
@@ -292,6 +314,10 @@ def impl(c, ctx):
     except Exception as e:
         out["real_slope_nd_err"] = err_kind(e)
     try:
+        out["real_slope_nd_int"] = float(_real_slope_nd_int(ctx.db, s)).hex()
+    except Exception as e:
+        out["real_slope_nd_int_err"] = err_kind(e)
+    try:
         f = _real_slope_cat(ctx.db, s)
         if f is not None:
             out["real_slope_cat"] = f.hex()
@@ -309,6 +335,12 @@ def impl(c, ctx):
         out["real_composed"] = float(_real_composed(ctx.db, j["kind"], j["parts"])).hex()
     except Exception as e:
         out["real_composed_err"] = "%s: %r" % (err_kind(e), e)
+    if j["kind"] == "compound" and any(abs(e_) >= 2 for _u, e_, _p in j["parts"]):
+        try:
+            out["real_composed_pow"] = float(_real_composed(ctx.db, j["kind"], j["parts"], use_pow=True)).hex()
+            ctx.notes["pow_composed_rows"] = ctx.notes.get("pow_composed_rows", 0) + 1
+        except Exception as e:
+            out["real_composed_pow_err"] = "%s: %r" % (err_kind(e), e)
     try:
         rm = _real_matched(ctx.db, j["kind"], j["parts"])
         if rm is not None:
@@ -360,6 +392,13 @@ def agree(c, io, mo, ctx):
             return "real conversion factor through the ndarray branch %r is not the model's slope %s" % (r, float(qparse(m["slope"])))
     elif "real_slope_nd_err" in i and "real_slope" in i:
         return "the ndarray branch of the conversion raised: " + i["real_slope_nd_err"]
+    if "real_slope_nd_int" in i:
+        r = float.fromhex(i["real_slope_nd_int"])
+        if not close(r, qparse(m["slope"]), abs(qparse(m["slope"])) * 8) and \
+                not _affine_slack(ctx, c["_t"]["s"], r, qparse(m["slope"])):
+            return "real conversion factor through the ndarray branch with an integer dtype %r is not the model's slope %s" % (r, float(qparse(m["slope"])))
+    elif "real_slope_nd_int_err" in i and "real_slope" in i:
+        return "the ndarray branch of the conversion raised on an integer array: " + i["real_slope_nd_int_err"]
     if "real_slope_cat" in i:
         r = float.fromhex(i["real_slope_cat"])
         if not close(r, qparse(m["slope"]), abs(qparse(m["slope"])) * 8) and \
@@ -379,6 +418,13 @@ def agree(c, io, mo, ctx):
         e = qparse(m["expected"])
         if not close(r, e, abs(e) * 64):
             return "composition by real Scalar arithmetic %r is not the model's product %s" % (r, float(e))
+    if "real_composed_pow" in i:
+        r = float.fromhex(i["real_composed_pow"])
+        e = qparse(m["expected"])
+        if not close(r, e, abs(e) * 64):
+            return "composition by real Scalar arithmetic with Scalar ** n %r is not the model's product %s" % (r, float(e))
+    elif "real_composed_pow_err" in i and "real_composed" in i:
+        return "composition with Scalar ** n raised: " + i["real_composed_pow_err"]
     if "real_matched" in i:
         r = float.fromhex(i["real_matched"])
         e = qparse(m["expected"])
@@ -431,6 +477,10 @@ def oracle(c, ctx):
         if abs(named_nd - named) > 1e-9 * abs(named) + 1e-300:
             return dict(clause="an ndarray amount in the named unit converts with another factor than a float amount",
                         symbol=s, float_factor=named, ndarray_factor=named_nd)
+        named_ndi = _real_slope_nd_int(db, s)
+        if abs(named_ndi - named) > 1e-9 * abs(named) + 1e-300:
+            return dict(clause="an integer ndarray amount in the named unit converts with another factor than a float "
+                               "amount", symbol=s, float_factor=named, integer_ndarray_factor=named_ndi)
         named_cat = _real_slope_cat(db, s)
         if named_cat is not None and abs(named_cat - named) > 1e-9 * abs(named) + 1e-300:
             return dict(clause="the named unit converts with another factor when the conversion is asked through a "
@@ -457,6 +507,15 @@ def oracle(c, ctx):
         return dict(clause="composition of the parts depends on the route: pre-converted to base units vs left to "
                            "the library's unit matching", symbol=s, parts=_parts_json(kind, parts),
                     pre_converted=composed, matched=matched)
+    if kind == "compound" and any(abs(e_) >= 2 for _u, e_, _p in parts):
+        try:
+            cp = _real_composed(db, kind, parts, use_pow=True)
+        except Exception as e:
+            return dict(clause="the parts of the named unit cannot be combined with Scalar ** n", symbol=s,
+                        parts=_parts_json(kind, parts), error=repr(e))
+        if not abs(cp - composed) <= 1e-9 * abs(composed):
+            return dict(clause="composition of the parts depends on the route: n-fold product vs Scalar ** n",
+                        symbol=s, parts=_parts_json(kind, parts), n_fold_product=composed, with_pow=cp)
     try:
         pr = _real_power_route(db, kind, parts)
     except Exception as e:
